@@ -65,7 +65,10 @@ def check_forest(item):
             leaves += 1
     except Exception as e:  # the code under test raised
         from sim.rng import HarnessUnsupported, ExploreBudget
-        if isinstance(e, (HarnessUnsupported, ExploreBudget)):
+        if isinstance(e, ExploreBudget):
+            # the outcome tree of this forest is larger than the budget (on the unchanged tree it never is): not judged
+            return {"leaves": leaves, "orders": 0, "problems": [], "n": len(pts), "nout": len(f.outliers), "budget": True}
+        if isinstance(e, HarnessUnsupported):
             raise
         problems.append(({"sub": "exception", "has_outliers": has_out, "exc": type(e).__name__}, repr(e)))
         return {"leaves": leaves, "orders": 0, "problems": problems, "n": len(pts), "nout": len(f.outliers)}
@@ -207,6 +210,10 @@ def run(ctx):
     res = runner.pmap(check_forest, items, timeout=1200)
     distinct = set()
     leaves = 0
+    n_budget = sum(1 for o in res if o.get("budget"))
+    ctx.cov["forests_not_judged_outcome_tree_over_budget"] = n_budget
+    if n_budget > 0.25 * len(res):
+        raise runner.HarnessError("%d of %d outcome trees exceeded the leaf budget" % (n_budget, len(res)))
     for (fj, bs), out in zip(items, res):
         leaves += out["leaves"]
         if out["orders"] > 1:
